@@ -128,6 +128,9 @@ IRead(id, ext)          == [op |-> "read", id |-> id, ext |-> ext]
 IReadDir(id)            == [op |-> "readdir", id |-> id]
 ILoad(ty, id, req)      == [op |-> "load", ty |-> ty, id |-> id, req |-> req]
 IOwned(ty, id, req)     == [op |-> "owned", ty |-> ty, id |-> id, req |-> req]
+(* presence observations are tracked only while a reload pass evaluates one of its members *)
+Look(E, kk) == IF E.track THEN [E EXCEPT !.looked = @ \cup {kk}] ELSE E
+
 IGet(ty, id)            == [op |-> "get", ty |-> ty, id |-> id]
 IContains(ty, id)       == [op |-> "contains", ty |-> ty, id |-> id]
 IGoi(ty, id, n)         == [op |-> "goi", ty |-> ty, id |-> id, n |-> n]
@@ -145,6 +148,8 @@ IPanic                  == [op |-> "panic"]
 (*   gen   : next value token           nread/nrdir/nldr : call counters    *)
 (*   fault : None | [what, at, kind]    dropped : tokens dropped on the way *)
 (*   unrec : reloadable assets looked up while no recorder was active       *)
+(*   looked: keys whose presence the evaluation in progress observed        *)
+(*           (get / contains / get_or_insert)                               *)
 (*   fhit  : an injected fault hit during the evaluation in progress        *)
 (*   taint : keys whose current value was computed while a fault hit        *)
 (* A cache entry: [val, dyn, rid, origin, tok].                             *)
@@ -333,15 +338,15 @@ Instr(E, R, k, ins, scripts) ==
       [] ins.op = "get" ->
             LET kk == Key(ins.ty, ins.id)
                 R1 == IF IsHot(ins.ty, E) THEN RecAdd(R, AssetD(kk), E) ELSE R IN
-            Step(IF IsHot(ins.ty, E) /\ ~R.on THEN [E EXCEPT !.unrec = @ \cup {AssetD(kk)}] ELSE E,
+            Step(IF IsHot(ins.ty, E) /\ ~R.on THEN [Look(E, kk) EXCEPT !.unrec = @ \cup {AssetD(kk)}] ELSE Look(E, kk),
                  R1, IF E.cache[kk] = None THEN ONone ELSE OVal(E.cache[kk].val), None, FALSE)
       [] ins.op = "contains" ->
-            Step(E, R, OBool(E.cache[Key(ins.ty, ins.id)] # None), None, FALSE)
+            Step(Look(E, Key(ins.ty, ins.id)), R, OBool(E.cache[Key(ins.ty, ins.id)] # None), None, FALSE)
       [] ins.op = "goi" ->
             LET kk == Key(ins.ty, ins.id)
                 R1 == IF IsHot(ins.ty, E) THEN RecAdd(R, AssetD(kk), E) ELSE R
                 tok == E.gen
-                E1 == [E EXCEPT !.gen = @ + 1] IN
+                E1 == [Look(E, kk) EXCEPT !.gen = @ + 1] IN
             IF E.cache[kk] # None
             THEN Step([E1 EXCEPT !.dropped = @ \cup {tok}], R1, OVal(E.cache[kk].val), None, FALSE)
             ELSE Step([E1 EXCEPT !.cache[kk] = Entry(VStor(ins.n), IF E.fixGoi THEN FALSE ELSE IsHot(ins.ty, E), "insert", tok)],
